@@ -38,9 +38,36 @@ def kill_orphans(pgid):
                 pass
 
 
+STRAY_REMOVED = []
+
+
+def remove_stray_databases(root):
+    """redo looks for `.redo` from a project's directory UPWARDS: a `.redo` left in the temporary directory or in `/` (by
+    an earlier run of a changed redo whose base discovery went astray, or by somebody's experiment run from there)
+    captures every scratch project created below it — all scenarios would then share one database and one lock file.
+    Nobody keeps a project database in those places: such a directory is debris; it is removed and the fact is reported in
+    the evidence."""
+    d = os.path.dirname(root)
+    while True:
+        stray = os.path.join(d, ".redo")
+        if os.path.lexists(stray):
+            shutil.rmtree(stray, ignore_errors=True)
+            if os.path.lexists(stray):
+                try:
+                    os.unlink(stray)
+                except OSError:
+                    pass
+            if stray not in STRAY_REMOVED:
+                STRAY_REMOVED.append(stray)
+        if d == "/" or not d:
+            break
+        d = os.path.dirname(d)
+
+
 class Project:
     def __init__(self, prefix="redo-verif-"):
         self.root = os.path.realpath(tempfile.mkdtemp(prefix=prefix))
+        remove_stray_databases(self.root)
 
     def path(self, *p):
         return os.path.join(self.root, *p)
